@@ -104,15 +104,22 @@ type lop struct {
 	Ret    int64   `json:"ret"` // 0 = never returned (panic)
 	Err    string  `json:"err,omitempty"`
 	X      uint32  `json:"exit_code,omitempty"`
-	F      int     `json:"resource,omitempty"` // instantiate: 1 = holds an open file, 2 = holds an open file whose Close fails
-	S      int     `json:"start,omitempty"`    // instantiate: start function behaviour (sReturn...)
-	N2     int     `json:"peer,omitempty"`     // sCallPeer: name of the instance whose export is called
+	F      int     `json:"resource,omitempty"`  // instantiate: 1 = holds an open file, 2 = holds an open file whose Close fails
+	P      int     `json:"placement,omitempty"` // where the held file sits (placeName)
+	S      int     `json:"start,omitempty"`     // instantiate: start function behaviour (sReturn...)
+	N2     int     `json:"peer,omitempty"`      // sCallPeer: name of the instance whose export is called
 }
 
 var resMark = [...]string{"", "+file", "+failing-file"}
 
+// placements of the held file(s) in the instance's descriptor table
+var placeName = [...]string{"", "@fd0", "@fd1", "@fd2", "@several", "@fd70", "@fd130"}
+
 func (o lop) mark() string {
 	s := resMark[o.F]
+	if o.F != 0 {
+		s += placeName[o.P]
+	}
 	switch o.S {
 	case sNone:
 	case sReturn, sTrap:
